@@ -26,18 +26,19 @@ type encoder struct {
 	bvMode  bool
 	safeAll bool
 	// frame checking (root contract has an explicit modifies clause)
-	assertHit   map[int]bool
-	anchorsSeen []string
-	frameCheck bool
-	declMods   []declMod
+	assertHit     map[int]bool
+	anchorsSeen   []string
+	frameCheck    bool
+	declMods      []declMod
 	restoreChecks []restoreCheck
+	callCovers    []*Obligation
 }
 
 // declMod is a location the root function is allowed to modify.
 type declMod struct {
-	key   string
-	idx   string // "" = whole component
-	pred  func(idx string) string // region: the keys satisfying a predicate
+	key  string
+	idx  string                  // "" = whole component
+	pred func(idx string) string // region: the keys satisfying a predicate
 }
 
 type nameBinding struct {
@@ -74,42 +75,44 @@ type privCell struct {
 }
 
 type frame struct {
-	keepBook bool
-	enc      *encoder
-	fn       *ssa.Function
-	parent   *frame
-	depth    int
-	prefix   string
-	vals     map[ssa.Value]Term
-	tuples   map[ssa.Value][]Term
-	lvals    map[ssa.Value]*lval
-	names    map[*ssa.BasicBlock][]nameBinding
-	edges    map[*ssa.BasicBlock][]edgeIn
-	outSt    map[*ssa.BasicBlock]*State
-	rets     []retRec
-	old      *State
-	contract *Contract
-	loops    map[*ssa.BasicBlock]*loopInfo
-	order    []*ssa.BasicBlock
-	private  map[*ssa.Alloc]bool
-	priv     []privCell
-	callOrd  map[string]int
-	retOrd   int
-	curBlock *ssa.BasicBlock
-	curIdx   int
-	deferN   int
-	closures map[ssa.Value]*ssa.MakeClosure
-	loopOrd  map[*ssa.BasicBlock]int
-	entryArgs []Term
-	callSites map[string][]ssa.Instruction
+	curCall      *ssa.CallCommon
+	curSite      ssa.Instruction
+	keepBook     bool
+	enc          *encoder
+	fn           *ssa.Function
+	parent       *frame
+	depth        int
+	prefix       string
+	vals         map[ssa.Value]Term
+	tuples       map[ssa.Value][]Term
+	lvals        map[ssa.Value]*lval
+	names        map[*ssa.BasicBlock][]nameBinding
+	edges        map[*ssa.BasicBlock][]edgeIn
+	outSt        map[*ssa.BasicBlock]*State
+	rets         []retRec
+	old          *State
+	contract     *Contract
+	loops        map[*ssa.BasicBlock]*loopInfo
+	order        []*ssa.BasicBlock
+	private      map[*ssa.Alloc]bool
+	priv         []privCell
+	callOrd      map[string]int
+	retOrd       int
+	curBlock     *ssa.BasicBlock
+	curIdx       int
+	deferN       int
+	closures     map[ssa.Value]*ssa.MakeClosure
+	loopOrd      map[*ssa.BasicBlock]int
+	entryArgs    []Term
+	callSites    map[string][]ssa.Instruction
 	deferFrame   bool
 	pendingFrame []func()
-	callArgs  []Term
+	callArgs     []Term
 	callArgTypes []types.Type
-	mapKV     *[2]tv
-	lastLoadHW string
+	mapKV        *[2]tv
+	lastLoadHW   string
 	lastLoadBase string
-	witness   map[string]string
+	witness      map[string]string
 }
 
 func (e *encoder) inRepo(fn *ssa.Function) bool {
@@ -273,8 +276,45 @@ func blockPos(b *ssa.BasicBlock) token.Pos {
 	return best
 }
 
+// closureArgOK reports whether passing a closure as argument idx of the call is
+// known not to let it escape (the callee runs it synchronously: an "invokes"
+// clause in its contract).  Set by the encoder.
+var closureArgOK func(c *ssa.CallCommon, idx int) bool
+
 func isPrivateAlloc(a *ssa.Alloc) bool {
 	var ok func(v ssa.Value, depth int) bool
+	closureOK := func(mc *ssa.MakeClosure) bool {
+		refs := mc.Referrers()
+		if refs == nil {
+			return false
+		}
+		for _, r := range *refs {
+			var cc *ssa.CallCommon
+			switch x := r.(type) {
+			case *ssa.DebugRef:
+				continue
+			case *ssa.Call:
+				cc = x.Common()
+			case *ssa.Defer:
+				cc = x.Common()
+			default:
+				return false // stored, returned, sent or run as a goroutine
+			}
+			if cc.Value == mc {
+				continue
+			}
+			allowed := false
+			for i, arg := range cc.Args {
+				if arg == mc && closureArgOK != nil && closureArgOK(cc, i) {
+					allowed = true
+				}
+			}
+			if !allowed {
+				return false
+			}
+		}
+		return true
+	}
 	ok = func(v ssa.Value, depth int) bool {
 		refs := v.Referrers()
 		if refs == nil {
@@ -298,6 +338,22 @@ func isPrivateAlloc(a *ssa.Alloc) bool {
 			case *ssa.IndexAddr:
 				if x.X != v || !ok(x, depth+1) {
 					return false
+				}
+			case *ssa.MakeClosure:
+				// captured by a closure that only runs synchronously and only loads/stores it
+				if depth > 0 || !closureOK(x) {
+					return false
+				}
+				fn, isFn := x.Fn.(*ssa.Function)
+				if !isFn {
+					return false
+				}
+				for i, b := range x.Bindings {
+					if b == v {
+						if i >= len(fn.FreeVars) || !ok(fn.FreeVars[i], depth+1) {
+							return false
+						}
+					}
 				}
 			default:
 				return false
